@@ -77,8 +77,20 @@ if the Shutdown call of side `x` has returned nil and the transport under `x` di
 (1) no message was accepted after the call, (2) every message `x` ever accepted has been handed to the peer's
 streams (it sits complete in a reassembly queue or has been read), (3) what the peer has read from each stream is
 a prefix, in order, of what `x` wrote to that stream, and (4) every stream of the peer on which closure has been
-reported had delivered ALL messages written to it before. -/
-theorem C08_shutdown_ok_implies_delivered (ops : List Op) (x : Bool) :
+reported had delivered ALL messages written to it before.
+
+`_partial`: the statement of C08 has no side condition ("When Shutdown returns without error, every message … has been
+delivered"), i.e. the same theorem WITHOUT the hypothesis `connFailed = false`:
+
+    theorem C08_shutdown_ok_implies_delivered (ops) (x) :
+      let s := Sys.init.run ops; (s.ep x).sd = 2 → ∀ w ∈ (s.ep x).snd.wlog, Got (s.ep (!x)).rcv w  (∧ order ∧ closure)
+
+That is false for the code as it is (and so for the model): `Shutdown` waits on closeWriteLoopCh only, which readLoop's
+exit path also closes when the LOCAL transport fails, so the call returns nil with data still queued — witness
+`C08_shutdown_nil_on_transport_failure_witness` below, replayed on the real code from
+corpus/C08/known/sd_shutdown_nil_on_local_transport_failure.ops. What is missing for the full statement is an error
+return of `Shutdown` on that path. -/
+theorem C08_shutdown_ok_implies_delivered_partial (ops : List Op) (x : Bool) :
     let s := Sys.init.run ops
     (s.ep x).sd = 2 → (s.ep x).connFailed = false →
       (s.ep x).snd.wlog.length = (s.ep x).callAt ∧
@@ -88,6 +100,14 @@ theorem C08_shutdown_ok_implies_delivered (ops : List Op) (x : Bool) :
       (∀ sid k, (sid, k) ∈ (s.ep (!x)).rcv.eofs →
         (s.ep (!x)).rcv.readOn sid = (onStream (s.ep x).snd.wlog sid).map (·.1)) :=
   delivered_of_inv _ (run_inv ops) x
+
+/-- witness that the hypothesis `connFailed = false` of `C08_shutdown_ok_implies_delivered_partial` is needed: one message
+queued, Shutdown called, the local transport fails — the call has returned nil (sd = 2) and the message was never even
+sent, let alone delivered -/
+theorem C08_shutdown_nil_on_transport_failure_witness :
+    let s := Sys.init.run [.write false 0, .shutdown false, .closeConn false]
+    s.a.sd = 2 ∧ s.a.connFailed = true ∧ s.a.snd.wlog = [(0, 0, 0)] ∧ s.a.snd.pend = [(0, 0, 0)] ∧
+    s.b.rcv.store = [] ∧ s.b.rcv.rlog = [] ∧ s.ha.size = 0 := by decide
 
 /-- **Writes (and OpenStream) after Shutdown began are rejected.** In every reachable state in which a Shutdown
 call of side `x` has passed its state gate: no message has been accepted since, a write on any stream is
